@@ -502,7 +502,62 @@ func c14LevelCheck(p *payment.Payment, level int) string {
 	return ""
 }
 
+// checksum-valid strings whose human-readable part merely starts with (or otherwise resembles) a known
+// prefix belong to no known network: nothing may recognise them
+var foreignHrps = []string{"exx", "lqx", "exq", "tlqq", "elx", "ertt", "texx", "lq1", "e", "x", "ex1ex", "tl", "qlq", "lqlq"}
+
+func checkC14Foreign(t *Toks) string {
+	net := adrNets[t.Int()]
+	ty := t.Int()
+	payload, key := t.Hex(), t.Hex()
+	if ty < 2 {
+		return "SKIP not-segwit"
+	}
+	ver := adrVersionByte(net, ty)
+	conv, _ := bech32.ConvertBits(payload, 8, 5, true)
+	data := append([]byte{ver}, conv...)
+	bconv, _ := blech32.ConvertBits(append(cp(key), payload...), 8, 5, true)
+	bdata := append([]byte{ver}, bconv...)
+	enc := blech32.BLECH32
+	if ver == 1 {
+		enc = blech32.BLECH32M
+	}
+	for _, h := range foreignHrps {
+		var x string
+		if ver == 0 {
+			x, _ = bech32.Encode(h, data)
+		} else {
+			x, _ = bech32.EncodeM(h, data)
+		}
+		y, _ := b32Encode(h, bdata, enc)
+		for _, s := range []string{x, y} {
+			if s == "" {
+				continue
+			}
+			if n, err := address.NetworkForAddress(s); err == nil {
+				return fail("foreign-hrp", fmt.Sprintf("%s-attributed-to-%s", h, n.Name))
+			}
+			if _, err := address.DecodeType(s); err == nil {
+				return fail("foreign-hrp", h+"-recognised")
+			}
+			if _, err := address.ToOutputScript(s); err == nil {
+				return fail("foreign-hrp", h+"-has-script")
+			}
+			if guard(func() string {
+				if _, err := address.FromConfidential(s); err == nil {
+					return "ok"
+				}
+				return ""
+			}) == "ok" {
+				return fail("foreign-hrp", h+"-from-confidential")
+			}
+		}
+	}
+	return "OK"
+}
+
 func init() {
+	checks["C14/adrforeign"] = checkC14Foreign
 	checks["C14/adrnest"] = checkC14Nest
 	checks["C14/adrhist"] = checkC14Hist
 	checks["C14/adrform"] = checkC14Form
